@@ -47,7 +47,7 @@ func runProcOpts(timeout time.Duration, dir string, env []string, stdin []byte, 
 		return syscall.Kill(-c.Process.Pid, syscall.SIGKILL)
 	}
 	c.WaitDelay = 60 * time.Second // only bounds the copy of already written output after the process has gone
-	var so, se capBuffer // (gosk -d prints a parser trace of hundreds of megabytes for larger sources)
+	var so, se capBuffer           // (gosk -d prints a parser trace of hundreds of megabytes for larger sources)
 	c.Stdout, c.Stderr = &so, &se
 	if deadStdout {
 		if pr, pw, err := os.Pipe(); err == nil {
